@@ -283,6 +283,13 @@ def store_for(src, data, faults):
 
 
 def _source_bytes(src):
+    if src["kind"] == "gen-apk":
+        from gen import axmlasm
+        out = io.BytesIO()
+        with zipfile.ZipFile(out, "w", zipfile.ZIP_DEFLATED) as z:
+            z.writestr("AndroidManifest.xml", axmlasm.assemble(src["doc"]))
+            z.writestr("classes.dex", b"")
+        return out.getvalue()
     if src["kind"] == "gen-axml":
         from gen import axmlasm
         return axmlasm.assemble(src["doc"])
@@ -324,6 +331,13 @@ def _worker_inproc(seed):
         doc = axmlasm.random_doc(r)
         kind, name, data = "axml", "generated", axmlasm.assemble(doc)
         src = {"kind": "gen-axml", "parser": "axml", "name": "generated", "doc": doc}
+    elif pick < 0.42:
+        # a generated manifest (boundary values in uses-sdk / version attributes) inside a minimal archive, through APK(raw=True)
+        from gen import axmlasm
+        doc = axmlasm.manifest_doc(r)
+        kind, name = "apk", "generated"
+        src = {"kind": "gen-apk", "parser": "apk", "name": "generated", "doc": doc}
+        data = _source_bytes(src)
     else:
         kind, name, data = r.choice(files)
         src = {"kind": "corpus", "parser": kind, "name": name}
@@ -344,7 +358,7 @@ def _worker_inproc(seed):
         p = pristine(inner[0], inner[1], inner[2])
         data = inner[2]
     else:
-        p = pristine(kind, name + (":%x" % seed if name == "generated" else ""), data, allow_rejected=(src["kind"] == "gen-axml"))
+        p = pristine(kind, name + (":%x" % seed if name == "generated" else ""), data, allow_rejected=(src["kind"] in ("gen-axml", "gen-apk")))
     skipped = {}
     if p is None:
         return {"problems": [], "digest": core.digest_of([name, "pristine-not-ok"]), "probes": {}, "faults": {}, "units": 0,
@@ -359,7 +373,7 @@ def _worker_inproc(seed):
         # this worker process has already produced several non-termination cases: do not spend its time on more of them
         return {"problems": [], "digest": core.digest_of([seed, "skipped"]), "probes": {"batch-skipped-after-violations-in-this-worker": 1},
                 "faults": {}, "units": 0, "nontrivial": False, "sample": None, "case": None, "cases": 0, "skipped": {}, "extra": {}}
-    if src["kind"] == "gen-axml":
+    if src["kind"] in ("gen-axml", "gen-apk"):
         # the crafted document itself is a case (no storage fault on top)
         fired["crafted-document"] = 1
         if p["outcome"] in ("loop", "native-stall"):
